@@ -360,6 +360,10 @@ class Kinds:
                         stats["K4"] += 1
                         # definedness tests against the NIL sentinel are not orderings
                         ok = kb in (NIL,) or (kb == LIT and b == ("const", 0))
+                        # ... neither is a range test against the size of the index's own graph (i < n, i <= n - 1)
+                        size = b[2] if b[0] == "bin" and b[1] in ("+", "-") and b[3][0] == "const" else b
+                        if not ok and ka[0] == "NodeIdx" and count_of(size) is not None and count_of(size) == ka[1]:
+                            ok = True
                         report("K4", ev, show(t), ok,
                                "" if ok else f"orders the nominal index '{show(a)}' ({kshow(ka)})")
                         return
